@@ -29,3 +29,34 @@ fn unexpected_packet_during_connect_is_an_error_not_a_panic() {
     exec.settle();
     assert!(matches!(&*r.borrow(), Some(Err(_))), "{:?}", r.borrow());
 }
+
+#[test]
+fn truncated_two_byte_integer_is_an_error_not_a_panic() {
+    // PUBACK whose remaining length says 1: only half of the packet identifier is there
+    let mut b = Bench::connected(&[]);
+    b.feed(&[0x40, 0x01, 0x05]);
+    let r = b.run_result();
+    assert!(matches!(&r, Some(Err(_))), "run() must end with an error, got {:?}", r);
+}
+
+#[test]
+fn five_byte_remaining_length_is_an_error_not_a_panic() {
+    let mut b = Bench::connected(&[]);
+    b.feed(&[0x30, 0xff, 0xff, 0xff, 0xff, 0x7f, 0x00]);
+    let r = b.run_result();
+    assert!(matches!(&r, Some(Err(_))), "run() must end with an error, got {:?}", r);
+}
+
+#[test]
+fn truncated_four_byte_integer_property_is_an_error_not_a_panic() {
+    // CONNACK with a Session Expiry Interval property (id 17) carrying only 2 of its 4 bytes
+    let mut exec = Exec::new();
+    let rx = ScriptedRx::default();
+    let tx = RecordingTx::default();
+    let (mut ctx, _handle) = poster::Context::new();
+    ctx.set_up((rx.clone(), tx.clone()));
+    rx.push(&[0x20, 0x06, 0x00, 0x00, 0x03, 17, 0x00, 0x01]);
+    let r = exec.spawn(async move { ctx.connect(poster::ConnectOpts::new()).await.map(|_| ()).map_err(|e| format!("{:?}", e)) });
+    exec.settle();
+    assert!(matches!(&*r.borrow(), Some(Err(_))), "{:?}", r.borrow());
+}
